@@ -5,7 +5,7 @@
   selection list with the fragments spread into it, each field tagged with the static parent type it is selected on),
   two fields with the same response key
     * whose parent types can OVERLAP (some object type belongs to both: same type, or one of them abstract and
-      containing the other …) have the same field name, and their sub-selections, merged, are again `MergeSafe`;
+      containing the other …) have the same field name and the same (coerced) arguments, and their sub-selections, merged, are again `MergeSafe`;
     * in any case have return types of the same SHAPE (`SameShape`: same list / non-null structure, equal leaf types or
       both composite).
   The executor groups by response key PER RUNTIME OBJECT TYPE after applying type conditions: two nodes end in one
@@ -71,7 +71,7 @@ theorem overlap_not_exclusive (s : SchemaD) (P1 P2 : String) (h : Overlap s P1 P
 /-- merge safety of a scope -/
 inductive MS (s : SchemaD) (doc : Doc) : TSels → Prop
   | intro {L : TSels} :
-      (∀ x y, InScope doc L x → InScope doc L y → x.2.key = y.2.key → Overlap s x.1 y.1 → x.2.name = y.2.name) →
+      (∀ x y, InScope doc L x → InScope doc L y → x.2.key = y.2.key → Overlap s x.1 y.1 → x.2.name = y.2.name ∧ x.2.args = y.2.args) →
       (∀ x y, InScope doc L x → InScope doc L y → x.2.key = y.2.key → Overlap s x.1 y.1 →
           MS s doc (typedSub s x.1 x.2 ++ typedSub s y.1 y.2)) →
       (∀ x y t u, InScope doc L x → InScope doc L y → x.2.key = y.2.key →
@@ -370,7 +370,7 @@ private theorem executeGroups_noIntT (s : SchemaD) (hs : SchemaOk s) (doc : Doc)
             have hkn := hk (key, node :: more) (by simp) n hn
             have hk0 := hk (key, node :: more) (by simp) node (by simp)
             cases hms with
-            | intro h1 _ _ => exact h1 (P, n) (P0, node) hin hin0 (by simp [hkn, hk0]) ⟨rt, hP, hP0⟩
+            | intro h1 _ _ => exact (h1 (P, n) (P0, node) hin hin0 (by simp [hkn, hk0]) ⟨rt, hP, hP0⟩).1
           have hres : NoInt (resolveField s w execSub rt (path ++ [Seg.key key]) (node :: more) fd) := by
             intro cls' h'
             simp only [resolveField] at h'
@@ -587,7 +587,9 @@ theorem msB_sound (s : SchemaD) (doc : Doc) (sf : Nat) : ∀ (n : Nat) (L : TSel
       · intro x y hx hy hk ho
         have := h x (hmem x hx) y (hmem y hy)
         simp only [pairOk, hk, beq_self_eq_true, if_true, overlapB_complete s _ _ ho, Bool.and_eq_true] at this
-        simpa using this.2.1
+        have h3 := this.2.1
+        simp only [Bool.and_eq_true, beq_iff_eq] at h3
+        exact h3
       · intro x y hx hy hk ho
         have := h x (hmem x hx) y (hmem y hy)
         simp only [pairOk, hk, beq_self_eq_true, if_true, overlapB_complete s _ _ ho, Bool.and_eq_true] at this
@@ -637,5 +639,17 @@ theorem levels_doc_mergeSafe_not_keyConsistent :
 /-- and a genuinely ambiguous document is rejected by the evaluator: `{ pet { v: name ... on Dog { v: bark } } }` -/
 example : mergeSafeB petSchema { ops := [{ kind := "query", name := none, sels := [.field "pet" "pet" 2 [] [] true
     [.field "v" "name" 10 [] [] false [], .inline (some "Dog") [] [.field "v" "bark" 30 [] [] false []]]] }], frags := [] } = false := by decide
+
+
+/-- **same_group_same_call**: "one unambiguous value per response key" — two nodes that the executor can put into one
+    group for a runtime type (both lie in the scope with parents containing that type, same response key) denote the same
+    field call: equal field name and equal coerced arguments. Which of them comes first does not matter. -/
+theorem same_group_same_call (s : SchemaD) (doc : Doc) (vars : Vars) (L : TSels) (hms : MS s doc L) (rt : String) (n1 n2 : FNode)
+    (h1 : NodeOkT s doc vars L rt n1) (h2 : NodeOkT s doc vars L rt n2) (hk : n1.key = n2.key) :
+    n1.name = n2.name ∧ n1.args = n2.args := by
+  obtain ⟨P1, hi1, hu1, _⟩ := h1
+  obtain ⟨P2, hi2, hu2, _⟩ := h2
+  cases hms with
+  | intro h _ _ => exact h (P1, n1) (P2, n2) hi1 hi2 hk ⟨rt, hu1, hu2⟩
 
 end PyGql.Props.C05
